@@ -166,6 +166,8 @@ type State struct {
 	fixedIdx    int               // concrete re-execution: index of the next fixed nondet value
 	parks       map[int]*parkInfo // copy-on-write
 	maxAlloc    *Term             // largest symbolic-size allocation on this path
+	bloom       map[string]*Term  // declared bloom answers, copy-on-write
+	pcMaxVar    int               // largest variable number mentioned by the path condition
 }
 
 type Thread struct {
@@ -203,6 +205,8 @@ func (st *State) clone() *State {
 	n.cur, n.stuck = st.cur, st.stuck
 	n.parks = st.parks
 	n.maxAlloc = st.maxAlloc
+	n.bloom = st.bloom
+	n.pcMaxVar = st.pcMaxVar
 	n.preemptLeft = st.preemptLeft
 	n.syncInt = make(map[string]int, len(st.syncInt))
 	for k, v := range st.syncInt {
@@ -424,4 +428,34 @@ func ptrKey(v Value) string {
 		return "nil"
 	}
 	return fmt.Sprintf("%d%v", p.Obj.ID, p.Path)
+}
+
+func (st *State) addPC(ts ...*Term) {
+	for _, t := range ts {
+		st.pc = append(st.pc, t)
+		if t.maxVar > st.pcMaxVar {
+			st.pcMaxVar = t.maxVar
+		}
+	}
+}
+
+// freeChoice reports that c is a test on a variable the path condition does not mention yet
+// (a fresh nondet bool, or fresh bit-vector == constant): both outcomes are feasible, no query.
+func (st *State) freeChoice(c *Term) bool {
+	if c.op == "not" {
+		c = c.args[0]
+	}
+	if c.minVar == 0 || c.minVar <= st.pcMaxVar {
+		return false
+	}
+	if c.op == "var" {
+		return true
+	}
+	if c.op == "=" && len(c.args) == 2 {
+		a, b := c.args[0], c.args[1]
+		if a.op == "var" && b.IsConst() || b.op == "var" && a.IsConst() {
+			return true
+		}
+	}
+	return false
 }
